@@ -105,3 +105,48 @@ def replay_sessions(run, name, specs, obs, limit):
             if len(logs) < limit:
                 logs.append((f"{d} of session {s.get('id')}", ops, {"spec": sessions.strip(s)}))
     return replay(run, name, logs)
+
+
+OPS_HEADER = """From Coq Require Import NArith List Uint63 Bool.
+From BP Require Import Exec.Limbs Exec.MerlinExec Exec.VerifyExec Exec.MerlinOpsExec Exec.CasesLib.
+Import ListNotations. Open Scope N_scope.
+"""
+
+
+def abstract_sessions(run, name, specs, obs, limit):
+    """The model's operation lists (Model/Transcript.v `op`, as the per-verification comparison decodes them from the log) interpreted by
+    Model/MerlinOps.run_ops over the Gallina Merlin: the challenges it computes must be the bytes the real merlin returned."""
+    from lib import vmodel, sessions
+    cases, meta = [], []
+    for s, o in zip(specs, obs):
+        todo = []
+        for mi, (ms, mo) in enumerate(zip(s["members"], o["members"])):
+            if mo.get("merlin") and mo.get("tid") is not None and isinstance(ms.get("ctx"), dict):
+                todo.append((f"prover of member {mi}", mo["merlin"], mo["tid"], ms["ctx"]))
+        for vi, (vs, vo) in enumerate(zip(s.get("verifies", []), o["verifies"])):
+            if vo.get("merlin") and vo.get("tids") and len(vo["tids"]) == len(vs["vmembers"]):
+                for tid, vm in zip(vo["tids"], vs["vmembers"]):
+                    if isinstance(vm.get("ctx"), dict):
+                        todo.append((f"verification {vi}", vo["merlin"], tid, vm["ctx"]))
+        for desc, log, tid, ctx in todo:
+            if len(cases) >= limit:
+                break
+            per, _, _ = vmodel.split_ops(log)
+            ops = per.get(tid, [])
+            if not ops or len(ops) > 300 or any(x[0] == "app" and x[1] not in vmodel.LABELS for x in ops if not isinstance(x, list)):
+                continue
+            chal = [x[2] for x in ops if not isinstance(x, list) and x[0] == "chal"]
+            if not chal:
+                continue
+            msgs = coq_list([f"({_b(lab.encode())}, {_b(bytes.fromhex(hx))})" for lab, hx in ctx.get("msgs", [])])
+            cases.append(f"chk_ops {_b(ctx['label'].encode())} {msgs} {coq_list(['(' + vmodel.coq_rop(x) + ')' for x in ops])} {coq_list([_b(c) for c in chal])}")
+            meta.append((f"{desc} of session {s.get('id')}", len(chal), sessions.strip(s)))
+    if not cases:
+        return
+    bad = coq_eval_bools(name + "_mops", OPS_HEADER, cases, shards=8, per_shard_min=1)
+    for d, n, _ in meta:
+        run.count(["merlin-ops", n], {"model_operation_list_run_through_gallina_merlin": d, "challenges": n})
+    run.bump("model operation lists run through the Gallina Merlin (challenges compared)", len(cases))
+    for i in bad:
+        run.violation(f"the challenges Model/MerlinOps.run_ops computes from the model's operation list differ from the bytes merlin returned ({meta[i][0]})",
+                      {"kind": "merlin-ops", "spec": meta[i][2], "correspondence": "Exec/MerlinOpsExec.chk_ops"}, no_input=True)
